@@ -54,6 +54,23 @@ func collectCodecRegs(p *Prog, typesPkg string) codecRegs {
 			switch {
 			case strings.HasSuffix(cs.Name, "codec.LegacyAmino).RegisterConcrete") && len(cc.Args) >= 3:
 				tn := typeNameOfPtrArg(cc.Args[1])
+				if _, isC := cc.Args[2].(*ssa.Const); !isC {
+					// table-driven: one call per element of a package-level table that is walked completely
+					if rows, _, ok := tableDrivenArgs(cs.Instr, []int{1, 2}); ok {
+						recv := o.Of(cc.Args[0])
+						for _, row := range rows {
+							rtn := typeNameOfPtrArg(row[0])
+							if c, ok := row[1].(*ssa.Const); ok && rtn != "" && c.Value != nil {
+								var s string
+								fmt.Sscanf(c.Value.ExactString(), "%q", &s)
+								cr.Concrete[rtn] = s
+								if recv.Op == "gval" {
+									cr.OnOwn[rtn] = true
+								}
+							}
+						}
+					}
+				}
 				if c, ok := cc.Args[2].(*ssa.Const); ok && tn != "" {
 					var s string
 					fmt.Sscanf(c.Value.ExactString(), "%q", &s)
@@ -67,6 +84,13 @@ func collectCodecRegs(p *Prog, typesPkg string) codecRegs {
 			case strings.HasSuffix(cs.Name, "InterfaceRegistry.RegisterImplementations"):
 				// varargs slice of implementations
 				if len(cc.Args) >= 2 {
+					if col, ok := appendedTableColumn(cc.Args[len(cc.Args)-1]); ok {
+						for _, v := range col {
+							if tn := typeNameOfPtrArg(v); tn != "" {
+								cr.Impl[tn] = true
+							}
+						}
+					}
 					if sl, ok := cc.Args[len(cc.Args)-1].(*ssa.Slice); ok {
 						if al, ok := sl.X.(*ssa.Alloc); ok {
 							if refs := al.Referrers(); refs != nil {
@@ -93,6 +117,18 @@ func collectCodecRegs(p *Prog, typesPkg string) codecRegs {
 		for _, cs := range callSites(fn) {
 			if cs.Callee != nil && pkgPathOf(cs.Callee) == Rel(typesPkg) && (cs.Callee.Name() == "RegisterCodec" || cs.Callee.Name() == "RegisterLegacyAminoCodec") {
 				arg := o.Of(cs.Instr.Common().Args[0])
+				if rows, t, ok := tableDrivenArgs(cs.Instr, []int{0}); ok && strings.HasPrefix(fn.Name(), "init") {
+					// the wrappers' codecs listed in a package-level table that init walks completely
+					to := NewOrigin(p, t.initFn)
+					for _, row := range rows {
+						rt := to.Of(row[0])
+						for _, wname := range []string{"authz", "gov", "group"} {
+							if rt.Op == "gval" && strings.HasSuffix(rt.Name, "x/"+wname+"/codec.Amino") {
+								cr.OnWrap[wname] = true
+							}
+						}
+					}
+				}
 				if arg.Op == "gval" && strings.HasSuffix(arg.Name, ".amino") {
 					// everything RegisterCodec registers is then on the module codec
 					cr.OnOwn["*"] = true
